@@ -4,6 +4,7 @@ from __future__ import annotations
 import itertools
 
 from .. import drivers as D
+from .. import models
 from ..spec import Spec, veq
 from . import common as C
 
@@ -14,9 +15,12 @@ ASSUMPTIONS = [
     "probe sub-spaces call min_start_time/earliest_start_time on the last ready operation before every reading of the clock",
     "'second' sub-spaces: the clock properties in an episode that follows an earlier episode of every length and a reset()",
     "'shared' sub-spaces install ONE filter object on two dispatchers with different histories and interleave their queries",
+    "'observed' sub-spaces subscribe one of every observer the library ships (history, unscheduled-operations, 7 feature observers + "
+    "composite, 2 reward observers, residual graph updater on the agent-task-with-jobs / disjunctive graph) before the first dispatch; "
+    "float32 rounding of the feature arrays is outside the claim (numpy facade)",
     "completed sets are read from completed_operations() and compared by operation id",
 ]
-STUBS = ["max", "min", "int (dispatcher module only)"]
+STUBS = ["max", "min", "int (dispatcher module only)", "np facade (observed sub-spaces)"]
 BUDGET = {"quick": 480, "thorough": 3000}
 BUILTIN = ["dominated_operations", "non_immediate_machines", "non_idle_machines", "non_immediate_operations"]
 
@@ -47,6 +51,9 @@ def subspaces(tier):
     out += C.structure_subspaces(s3, 2, False, canonical=True, filter=["dominated_operations", "non_idle_machines"], second=True)
     for comp in (["dominated_operations", "non_idle_machines"], ["non_immediate_operations", "non_idle_machines"], ["non_immediate_machines"]):
         out += C.structure_subspaces(s3 + [(2, 2)], 2, False, canonical=True, filter=comp, shared=True)
+    for g in ("atj", "disj"):
+        out += C.structure_subspaces(s3 + [(2, 2)], 2, False, canonical=(g == "disj"), filter="none", observed=g)
+    out += C.structure_subspaces(s3, 2, False, canonical=True, filter=["dominated_operations", "non_idle_machines"], observed="atj")
     for f in BUILTIN:
         out += C.structure_subspaces(s4, 2, False, filter=[f])
         out += C.structure_subspaces(s3, 2, True, only_flexible=True, filter=[f])
@@ -68,6 +75,10 @@ def cost(sp):
     return c * (c if sp.get("second") else 1)
 
 
+def extra_models(sp):
+    return models.numpy_facade_models(include_rl=True) if sp.get("observed") else []
+
+
 def harness(eng, sp):
     from job_shop_lib.dispatching import Dispatcher
 
@@ -80,6 +91,9 @@ def harness(eng, sp):
     other = Dispatcher(inst, ready_operations_filter=fobj) if sp.get("shared") else None   # same filter object, other history
     spec = Spec(desc)
     tag = "filtered" if filtered else "unfiltered"
+    if sp.get("observed"):
+        C.attach_library_observers(disp, inst, sp["observed"])
+        tag += "/observed"
 
     def read():
         try:
